@@ -48,7 +48,7 @@ from .dimension import (
 )
 from .margins import Margin
 from .mouse_handlers import MouseHandlers
-from .screen import _CHAR_CACHE, Screen, WritePosition
+from .screen import _CHAR_CACHE, Screen, WritePosition, get_display_width
 from .utils import explode_text_fragments
 
 if TYPE_CHECKING:
@@ -1985,7 +1985,7 @@ class Window(Container):
                 h_scroll = horizontal_scroll
                 line = explode_text_fragments(line)
                 while h_scroll > 0 and line:
-                    h_scroll -= get_cwidth(line[0][1])
+                    h_scroll -= get_display_width(line[0][1])
                     skipped += 1
                     del line[:1]  # Remove first character.
 
@@ -2530,12 +2530,14 @@ class Window(Container):
             current_scroll=self.horizontal_scroll,
             scroll_offset_start=offsets.left,
             scroll_offset_end=offsets.right,
-            cursor_pos=get_cwidth(current_line_text[: ui_content.cursor_position.x]),
+            cursor_pos=get_display_width(
+                current_line_text[: ui_content.cursor_position.x]
+            ),
             window_size=width - current_line_prefix_width,
             # We can only analyze the current line. Calculating the width off
             # all the lines is too expensive.
             content_size=max(
-                get_cwidth(current_line_text), self.horizontal_scroll + width
+                get_display_width(current_line_text), self.horizontal_scroll + width
             ),
         )
 
